@@ -123,7 +123,9 @@ CaseKeys == {GMap(<<KV("name", GInt("int", "five")), KV("Name", GStr("upper"))>>
              GStruct(<<Fld("Inner", TRUE, GMap(<<KV("val", GStr("lo")), KV("Val", GStr("hi"))>>))>>)}
 \* unsupported kinds at every depth
 Bads == {GBad(u) : u \in {"chan", "func", "complex", "array", "mapint", "uintptr", "mapintempty", "mapintnil", "chan-nil", "func-nil"}}
-BadAt(b) == {b, GPtr(b), GSlice(<<GInt("int", "five"), b>>), GMap(<<KV("k", b)>>), GStruct(<<Fld("Name", TRUE, GStr("n")), Fld("Val", TRUE, b)>>),
+BadAt(b) == {GPtr(GStruct(<<Fld("Name", TRUE, GStr("n")), Fld("Val", TRUE, b)>>)), GSlice(<<GStruct(<<Fld("Val", TRUE, b)>>)>>),
+             GMap(<<KV("k", GStruct(<<Fld("Val", TRUE, b), Fld("Name", TRUE, GStr("n"))>>))>>), GPtr(GPtr(GStruct(<<Fld("Val", TRUE, b)>>))),
+             b, GPtr(b), GSlice(<<GInt("int", "five"), b>>), GMap(<<KV("k", b)>>), GStruct(<<Fld("Name", TRUE, GStr("n")), Fld("Val", TRUE, b)>>),
              GSlice(<<GMap(<<KV("k", GSlice(<<b>>))>>)>>), GStruct(<<Fld("Inner", TRUE, GStruct(<<Fld("Val", TRUE, b)>>))>>),
              GMap(<<KV("a", GInt("int", "five")), KV("b", GPtr(GSlice(<<b>>)))>>)}
 \* an unsupported value in an UNEXPORTED field is not reachable and is not converted
